@@ -56,7 +56,7 @@ def run_chunk(job):
         r = Runner(_MAKERS[name], seed, with_c06=_C06)
         v = r.run_group(g)
         if v:
-            out.append((name, v))
+            out.append((name, tuple(v) + (seed, [{k: (x[k] if k != "st" else x[k]) for k in x} for x in g[0]])))
         seed += 1
     return out, len(groups), r.steps if groups else 0
 
@@ -96,11 +96,12 @@ def replay_all(ctx, allg, mk, per_arm_cap=None):
     for out, k, st in res:
         n += k
         steps += st * k
-        for name, (step, clause, exp, obs, ops) in out:
+        for name, (step, clause, exp, obs, ops, rseed, full) in out:
             if clause.startswith("HARNESS"):
                 ctx.machinery("%s on %s: %s" % (clause, name, ops))
             tags = [clause.split("|")[1]] if "|" in clause else []
-            ctx.violation(clause.split("|")[0], {"arm": name, "ops": ops, "step": step}, expected=exp, observed=obs, tags=tags)
+            ctx.violation(clause.split("|")[0], {"arm": name, "ops": ops, "step": step, "runner_seed": rseed, "behaviour": full,
+                                                 "with_c06": _C06}, expected=exp, observed=obs, tags=tags)
     return n
 
 
@@ -138,5 +139,19 @@ def run(ctx):
 
 
 def replay(ctx, rep):
-    print("re-run the check with the same seed; case:", rep["case"])
+    """re-run the recorded behaviour (one candidate: the first of its group) on a fresh arm with the recorded runner seed"""
+    import basic_robotics.kinematics  # noqa: F401
+    c = rep["case"]
+    if "behaviour" not in c:
+        print("replay file has no behaviour; re-run the check with seed", rep.get("seed"))
+        return 0
+    ctx.seed = rep.get("seed", ctx.seed)
+    mk = dict(makers(ctx))
+    r = Runner(mk[c["arm"]], c["runner_seed"], with_c06=bool(c.get("with_c06")))
+    v = r.run_group([c["behaviour"]])
+    print("ops:", [{k: x[k] for k in x if k != "st"} for x in c["behaviour"]])
+    print("result:", None if v is None else (v[0], v[1]))
+    if v:
+        print("VIOLATION property=%s replay=(replayed)" % ctx.pid)
+        return 1
     return 0
